@@ -15,3 +15,10 @@ def Err.name : Err → String
   | .stdOutOfRange => "StdOutOfRange" | .stdInvalidArgument => "StdInvalidArgument" | .stdRuntime => "StdRuntime"
   | .other => "Other"
 end Nix
+
+instance {ε α : Type} [DecidableEq ε] [DecidableEq α] : DecidableEq (Except ε α) := fun a b =>
+  match a, b with
+  | .ok x, .ok y => if h : x = y then isTrue (by rw [h]) else isFalse (by intro e; cases e; exact h rfl)
+  | .error x, .error y => if h : x = y then isTrue (by rw [h]) else isFalse (by intro e; cases e; exact h rfl)
+  | .ok _, .error _ => isFalse (by intro e; cases e)
+  | .error _, .ok _ => isFalse (by intro e; cases e)
